@@ -158,42 +158,42 @@ Print Assumptions C11_nnls_wrapper_returns_tikhonov_minimiser.
    that passes is eps-optimal against EVERY competitor for the objective of the property statement, with the
    eps the checker used, and its reported residual is consistent with it *)
 Theorem C11_nnls_output_certificate_sound :
-  forall n W b alpha L x rn,
+  forall rel n W b alpha L x rn,
   let Lm := tikhonov_or_identity n L in
   let C := stackC W alpha Lm in
   let d := stackd b n in
   length b = length W -> Forall (fun c => length c = n) W ->
   Forall (fun c => length c = n) Lm -> length Lm = n ->
-  check_nnls n W b alpha L x rn = true ->
+  check_nnls rel n W b alpha L x rn = true ->
   Forall (Qle 0) x /\
-  Qabs (rn * rn - tikhonov_objective W b alpha Lm x) <= rel_kkt * obj_scale C d x /\
+  Qabs (rn * rn - tikhonov_objective W b alpha Lm x) <= rel * obj_scale C d x /\
   forall y, length y = n -> Forall (Qle 0) y ->
-    tikhonov_objective W b alpha Lm x - 2 * (rel_kkt * grad_scale C d x) * Qsum y
-      - 2 * inject_Z (Z.of_nat n) * (rel_kkt * obj_scale C d x)
+    tikhonov_objective W b alpha Lm x - 2 * (rel * grad_scale C d x) * Qsum y
+      - 2 * inject_Z (Z.of_nat n) * (rel * obj_scale C d x)
     <= tikhonov_objective W b alpha Lm y.
 Proof. exact check_nnls_sound. Qed.
 Print Assumptions C11_nnls_output_certificate_sound.
 
 Theorem C11_lstsq_output_certificate_sound :
-  forall n W b alpha L x res,
+  forall rel n W b alpha L x res,
   let Lm := tikhonov_or_identity n L in
   let C := stackC W alpha Lm in
   let d := stackd b n in
   length b = length W -> Forall (fun c => length c = n) W ->
   Forall (fun c => length c = n) Lm -> length Lm = n ->
-  check_lstsq n W b alpha L x res = true ->
-  (forall r, res = [r] -> Qabs (r - tikhonov_objective W b alpha Lm x) <= rel_kkt * obj_scale C d x) /\
+  check_lstsq rel n W b alpha L x res = true ->
+  (forall r, res = [r] -> Qabs (r - tikhonov_objective W b alpha Lm x) <= rel * obj_scale C d x) /\
   forall y, length y = n ->
-    tikhonov_objective W b alpha Lm x - 2 * (rel_kkt * grad_scale C d x) * Qsum (map Qabs (vsub y x))
+    tikhonov_objective W b alpha Lm x - 2 * (rel * grad_scale C d x) * Qsum (map Qabs (vsub y x))
     <= tikhonov_objective W b alpha Lm y.
 Proof. exact check_lstsq_sound. Qed.
 Print Assumptions C11_lstsq_output_certificate_sound.
 
 Theorem C11_svd_output_certificate_sound :
-  forall W b x, length b = length W -> Forall (fun c => length c = length x) W ->
-  check_svd W b x = true ->
+  forall rel W b x, length b = length W -> Forall (fun c => length c = length x) W ->
+  check_svd rel W b x = true ->
   forall y, length y = length x ->
-    obj W b x - 2 * (rel_svd * grad_scale W b x) * Qsum (map Qabs (vsub y x)) <= obj W b y.
+    obj W b x - 2 * (rel * grad_scale W b x) * Qsum (map Qabs (vsub y x)) <= obj W b y.
 Proof. exact check_svd_sound. Qed.
 Print Assumptions C11_svd_output_certificate_sound.
 
